@@ -50,6 +50,8 @@ BODIES = [
     ("genexp", 1, ["return sum(v[1] for v in (call_next(i) for i in range(x)))"]),
     ("closure", 1, ["return (K, recurse(x - K)) if x >= K else call_next(x + K)"]),
     ("closure_inner", 1, ["def inner():", "    return recurse(x - K) if x >= K else call_next(x)", "return inner()"]),
+    ("nested_class_body", 1, ["class Box:", "    v = recurse(x - 1) if x > 0 else call_next(x)", "return ('A', Box.v)"]),
+    ("lambda_default", 1, ["return (scale(x), call_next(x) if x < 2 else recurse(x - 2))"]),
     ("default_arg", 1, ["return (scale, call_next(x * scale) if x < 2 else recurse(x - 2))"]),
     ("self_name", 1, ["return ('self', F(x - 1)) if x > 0 else call_next(x)"]),
     ("raises_after", 1, ["v = call_next(x)", "if x == 1:", "    raise ValueError(v)", "", "return recurse(x - 1) if x > 1 else v"]),
@@ -88,13 +90,14 @@ def module_for(name, npos, body, tier):
     is_gen = any("yield" in ln for ln in body)
     closure = name.startswith("closure")
     dflt = name == "default_arg"
+    lam = name == "lambda_default"      # a default value that is itself a code object (lambda) of the definition
     L = []
     L.append("import inspect, textwrap, types, sys as _sys")
     L.append("from ovld import Ovld, recurse, call_next")
     L.append("from ovld.utils import UsageError")
     L.append("TICKS = []\n\ndef tick(v):\n    TICKS.append(v)\n    return v\n")
     L.append("DFLT = 3")
-    hdr = f"def A({params}" + (", *, scale=DFLT" if dflt else "") + KW + "):"
+    hdr = f"def A({params}" + (", *, scale=DFLT" if dflt else ", *, scale=(lambda v: v * 10)" if lam else "") + KW + "):"
     if closure:
         L.append("def _factory(K, J=7):\n    " + hdr + "\n" + "\n".join("        " + ln for ln in body) + "\n    return A\n\nA = _factory(2)\n")
     else:
